@@ -100,7 +100,7 @@ def worker_main(spec):
                                       digest=res["digest"], hashseed=spec["hashseed"], group=group["name"])) + "\n")
             out.flush()
 
-    for i in spec["indices"]:
+    for i in (range(*spec["irange"]) if "irange" in spec else spec["indices"]):
         if time.time() > deadline or len(agg["harness_errors"]) > 3:
             break
         try:
@@ -314,8 +314,11 @@ def check_main(prop, tier, replay=None):
         ws = []
         for w in range(procs):
             hs = w % NHASH
-            idx = [i for i in range(n) if i % NHASH == hs and (i // NHASH) % (procs // NHASH) == w // NHASH]
-            spec = dict(prop=prop, group=g, base_seed=base_seed, indices=idx, budget_s=gb, hashseed=hs, tier=tier)
+            # run i goes to the worker with hash seed i mod NHASH: for worker w the arithmetic progression start, start+procs, ...
+            # (passed as a range: a list of several 10^4 indices does not fit a command-line argument)
+            start = hs + NHASH * (w // NHASH)
+            assert list(range(start, min(n, 4 * procs), procs)) == [i for i in range(min(n, 4 * procs)) if i % NHASH == hs and (i // NHASH) % (procs // NHASH) == w // NHASH]
+            spec = dict(prop=prop, group=g, base_seed=base_seed, irange=[start, n, procs], budget_s=gb, hashseed=hs, tier=tier)
             env = dict(os.environ, PYTHONHASHSEED=str(hs))
             p = subprocess.Popen([PY, os.path.abspath(__file__), "worker", json.dumps(spec)], stdout=subprocess.PIPE, stderr=subprocess.PIPE, env=env, text=True)
             ws.append(p)
